@@ -692,6 +692,41 @@ fn handle(req: &J) -> Result<J, String> {
             };
             Ok(json!({"ok": true, "text": jb(&text)}))
         }
+        "prim" => {
+            // AsValue of a Rust primitive given by its bits: what a std-typed document hands to the engine
+            use tau_engine::AsValue;
+            let ty = req["ty"].as_str().unwrap_or("");
+            let bits = req["bits"].as_u64().ok_or("bits")?;
+            let v = match ty {
+                "i8" => show_value(&(bits as i8).as_value()),
+                "i16" => show_value(&(bits as i16).as_value()),
+                "i32" => show_value(&(bits as i32).as_value()),
+                "i64" => show_value(&(bits as i64).as_value()),
+                "isize" => show_value(&(bits as isize).as_value()),
+                "u8" => show_value(&(bits as u8).as_value()),
+                "u16" => show_value(&(bits as u16).as_value()),
+                "u32" => show_value(&(bits as u32).as_value()),
+                "u64" => show_value(&bits.as_value()),
+                "usize" => show_value(&(bits as usize).as_value()),
+                "f32" => show_value(&f32::from_bits(bits as u32).as_value()),
+                "f64" => show_value(&f64::from_bits(bits).as_value()),
+                "bool" => show_value(&(bits != 0).as_value()),
+                _ => return Err("bad ty".into()),
+            };
+            Ok(json!({"ok": true, "value": v}))
+        }
+        "scalar_value" => {
+            // a scalar written as YAML / JSON text, parsed by serde and handed to the engine by the crate's adapter
+            use tau_engine::AsValue;
+            let text = req["text"].as_str().ok_or("text")?;
+            if req["json"].as_bool().unwrap_or(false) {
+                let v: serde_json::Value = serde_json::from_str(text).map_err(|e| e.to_string())?;
+                Ok(json!({"ok": true, "value": show_value(&v.as_value())}))
+            } else {
+                let v: serde_yaml::Value = serde_yaml::from_str(text).map_err(|e| e.to_string())?;
+                Ok(json!({"ok": true, "value": show_value(&v.as_value())}))
+            }
+        }
         "parse_f64" => {
             let s = bytes_to_string(&req["s"])?;
             match s.parse::<f64>() {
